@@ -239,18 +239,32 @@ def wiring(chk, r, n):
             log.append(("mut", dict(F=inbreeding, T=float(temp), counts=np.array(read_counts).tolist(),
                                     logU=float(log_unique_haplotypes), reads_ok=reads.shape == reads0.shape and bool(np.array_equal(reads, reads0, equal_nan=True)),
                                     nall=np.array(n_alleles).tolist())))
-            return llk, cache
+            return carry(float(temp), llk, 1.0), cache
 
         def rec_str(genotype, reads, llk, intervals, log_unique_haplotypes, inbreeding=0, step_type=0, randomize=True, temp=1,
                     read_counts=None, cache=None):
             log.append(("str", dict(F=inbreeding, T=float(temp), st=int(step_type), counts=np.array(read_counts).tolist(),
                                     logU=float(log_unique_haplotypes), reads_ok=reads.shape == reads0.shape and bool(np.array_equal(reads, reads0, equal_nan=True)),
                                     intervals=np.array(intervals).tolist())))
-            return llk, cache
+            return carry(float(temp), llk, 0.5), cache
 
         def rec_swap(genotype_i, llk_i, temp_i, genotype_j, llk_j, temp_j, log_unique_haplotypes, inbreeding=0):
             log.append(("swap", dict(F=inbreeding, Ti=float(temp_i), Tj=float(temp_j), logU=float(log_unique_haplotypes))))
-            return llk_i, llk_j
+            # an "accepted exchange": the two chains leave with each other's (perturbed) value
+            for T_, v_ in ((float(temp_i), llk_i), (float(temp_j), llk_j)):
+                if T_ in ledger and not (float(v_) == ledger[T_]):
+                    ledger_bad.append({"move": "exchange", "chain_inverse_temperature": T_, "handed": float(v_), "carried_by_that_chain": ledger[T_]})
+            ledger[float(temp_i)], ledger[float(temp_j)] = float(llk_j) + 0.25, float(llk_i) + 0.125
+            return ledger[float(temp_i)], ledger[float(temp_j)]
+        # a ledger of the likelihood each chain carries: every recorded move returns a value different from the one it was handed,
+        # and must later be handed exactly what the last move of that chain (or the exchange) returned
+        ledger, ledger_bad = {}, []
+
+        def carry(T_, llk_, inc):
+            if T_ in ledger and not (float(llk_) == ledger[T_]):
+                ledger_bad.append({"move": "sweep", "chain_inverse_temperature": T_, "handed": float(llk_), "carried_by_that_chain": ledger[T_]})
+            ledger[T_] = float(llk_) + inc
+            return ledger[T_]
         o1, o2, o3 = mutation.compound_step, structural.compound_step, amcmc.chain_swap_step
         mutation.compound_step, structural.compound_step, amcmc.chain_swap_step = rec_mut, rec_str, rec_swap
         reads0 = reads
@@ -265,6 +279,10 @@ def wiring(chk, r, n):
             mutation.compound_step, structural.compound_step, amcmc.chain_swap_step = o1, o2, o3
         chk.count("wiring:assembler")
         chk.case(("wiring", "assembler", it, tuple(temps.tolist()), F), len(temps) > 1)
+        if ledger_bad:
+            chk.violation("the assembler loop hands a move a likelihood that is not the one its chain carries (what the chain's last "
+                          "move or exchange returned)", {**case, "temperatures": temps.tolist(), **ledger_bad[0], "n_affected": len(ledger_bad)},
+                          "C01/wiring/assembler-ledger")
         expect = []
         for _ in range(steps):
             for t in range(len(temps)):
